@@ -120,10 +120,10 @@ PROPS["C14"] = {"theorems": [("GdslModel.Props.C14", "G.Macro." + t) for t in ["
     "level_text": "Machine-checked proof (Lean 4) that the body of a *graph! arm (collect edge tuples, insert nodes, check source then target, connect), as a function of the listed nodes and edges, builds exactly the listed nodes (first listing of a key wins) and per node exactly its listed edges in listed order, mirrored, and otherwise panics naming the first unlisted key in (edge order, source before target). The macro_rules! expansion itself is exercised, not modelled: a seeded generator writes invocations of all 4 macros x 4 forms (plus the empty form and the _node!/_connect! helpers) into a crate compiled against the working tree, each result bound to the flavour's own Graph type, and their output is compared with the model and with an independent denotation.", "level_note": CORR_NOTE, "design_ref": "DESIGN.md section 7, C14"}
 
 import c16 as _c16
-PROPS["C16"] = {"theorems": [("GdslModel.Props.C16", "G.Traits." + t) for t in ["exact_spec", "never_spec", "sync_digraph_exact", "sync_ungraph_exact", "plain_never", "sync_weak_exact", "weak_bounds_not_exact"]],
+PROPS["C16"] = {"theorems": [("GdslModel.Props.C16", "G.Traits." + t) for t in ["exact_spec", "never_spec", "sync_digraph_exact", "sync_ungraph_exact", "plain_never", "sync_weak_exact", "weak_bounds_not_exact", "static_bounds_not_exact"]],
     "oracles": [], "rule": "", "custom": _c16.custom,
     "technique": "Lean 4 proof by decide over tables regenerated from the Rust sources (translator) + model-vs-rustc probe table",
-    "level_text": "Machine-checked proof (Lean 4) that, under the transcribed auto-trait rules, each sync Node/Edge/Graph (and WeakNode) is Send resp. Sync exactly when K, N and E are all Send+Sync, and each plain type never is - for every instantiation, since a payload enters only through its two capability bits and all 4^3 assignments are decided. The definition tables (struct bodies, type aliases, every explicit impl Send/Sync with its bounds) are regenerated from /repo's sources by a translator on every run, so weakening a bound or changing a field type breaks the proof itself. The transcription of std's rules is validated against rustc: a probe binary reads the real trait solver's verdict for 4 flavours x 3 types x 64 payload witnesses x 2 traits and is compared row by row with the model; the rustc table is also judged directly against the statement. The 'consequently no data race' clause rests on Rust's meaning of Send/Sync and is not modelled.",
+    "level_text": "Machine-checked proof (Lean 4) that, under the transcribed auto-trait rules, each sync Node/Edge/Graph (and WeakNode) is Send resp. Sync exactly when K, N and E are all Send+Sync, and each plain type never is - for every instantiation, since a payload enters only through its capability bits (Send, Sync, and whether it meets any additional bound an explicit impl asks beyond the struct's own, e.g. 'static) and all 8^3 assignments are decided; an impl that asks more than Send + Sync of the payloads breaks the proof just like one that asks less. The definition tables (struct bodies, type aliases, every explicit impl Send/Sync with its bounds) are regenerated from /repo's sources by a translator on every run, so weakening a bound or changing a field type breaks the proof itself. The transcription of std's rules is validated against rustc: a probe binary reads the real trait solver's verdict for 4 flavours x 3 types x 64 payload witnesses x 2 traits and is compared row by row with the model, and a second program with borrowed (non-'static) Send + Sync payloads must compile for every sync type; the rustc table is also judged directly against the statement. The 'consequently no data race' clause rests on Rust's meaning of Send/Sync and is not modelled.",
     "level_note": "Trusted: Lean kernel (+ propext, Classical.choice, Quot.sound), the translator (fails loudly on constructs it does not know), the transcription of std's auto-trait rules (checked against rustc by the probe), rustc itself for the probe rows.",
     "design_ref": "DESIGN.md section 7, C16"}
 
